@@ -348,7 +348,8 @@ class BackendProvider(ABC):
         to a call of the interpreter's own verb, so that compiled and
         interpreted evaluation cannot disagree on them.
         """
-        from ..dyads import eval_dyad_divide, eval_dyad_power
+        from ..dyads import (eval_dyad_divide, eval_dyad_equal, eval_dyad_less,
+                             eval_dyad_more, eval_dyad_power)
 
         def nonempty(a):
             if len(a) == 0:
@@ -359,6 +360,9 @@ class BackendProvider(ABC):
             '_kg_nonempty': nonempty,
             '_kg_divide': lambda a, b: eval_dyad_divide(a, b, self),
             '_kg_power': lambda a, b: eval_dyad_power(a, b, self),
+            '_kg_equal': lambda a, b: eval_dyad_equal(a, b, self),
+            '_kg_more': lambda a, b: eval_dyad_more(a, b, self),
+            '_kg_less': lambda a, b: eval_dyad_less(a, b, self),
         }
 
     @staticmethod
